@@ -9,6 +9,7 @@ import (
 	"encoding/json"
 	"fmt"
 	"io"
+	"os"
 	"runtime"
 	"runtime/debug"
 	"strings"
@@ -586,6 +587,7 @@ func TestRetention(t *testing.T) {
 		runtime.ReadMemStats(&ms)
 		return ms.HeapAlloc
 	}
+	uniq := 0
 	measure := func(k kind) int64 {
 		srv, err := miniserver.New(miniserver.Options{RoutingTTL: time.Minute})
 		if err != nil {
@@ -598,11 +600,12 @@ func TestRetention(t *testing.T) {
 			if err != nil {
 				t.Fatalf("harness: %v", err)
 			}
+			uniq++ // every packet ever sent carries fresh ids (a confirming second run must not overwrite the first run's entries)
 			p := &packet.TransferPacket{PacketType: packet.Type(k.ty)}
 			if k.cmd >= 0 {
-				p.CommandPacket = &packet.CommandPacket{CommandType: packet.CommandType(k.cmd), CommandId: fmt.Sprintf("cid-%d", i), CommandBody: k.body(i, pad)}
+				p.CommandPacket = &packet.CommandPacket{CommandType: packet.CommandType(k.cmd), CommandId: fmt.Sprintf("cid-%d", uniq), CommandBody: k.body(uniq, pad)}
 			} else {
-				p.Payload = []byte(k.body(i, pad))
+				p.Payload = []byte(k.body(uniq, pad))
 			}
 			func() {
 				defer func() { recover() }()
@@ -628,6 +631,9 @@ func TestRetention(t *testing.T) {
 			grown = measure(k) // an independent second measurement must confirm it
 		}
 		name := fmt.Sprintf("type=%#x/cmd=%d", k.ty, k.cmd)
+		if os.Getenv("VERIF_DEBUG") != "" {
+			t.Logf("%s grown=%d", name, grown)
+		}
 		if grown > bound {
 			vkit.Violation(t, "C05/dispatcher-retains-memory/"+name, fmt.Sprintf("%d packets of ~96 KiB each on fresh unauthenticated connections (all closed): live heap grew by %d bytes after GC (bound %d)", perKind, grown, bound), c)
 			continue
